@@ -264,3 +264,52 @@ Lemma no_late_read_v2 :
   | None => false
   end = true.
 Proof. vm_compute. reflexivity. Qed.
+
+(* ---------- a failing store write of UpdateStatus(StatusRunning) (c_stfail) ---------- *)
+(* v1: the write fails at the user's Start: the publication is rolled back and runPipeline returns before the
+   cleanup goroutine is registered. The node goroutines run on: status Running, no map entry, nothing can
+   stop the run *)
+Definition w_stfail_start_v1 : list act := [ACall KStart 0] ++ user 5 ++ [AUser 1; AUser 0; AOpen 0].
+Lemma stfail_start_leaks_run_v1 :
+  match trace (cfg_v1_io true) init (w_stfail_start_v1 ++ [ACall KStop 1] ++ user 2) with
+  | Some (ls, s) => quiescent s && status_eqb (s_status s) Running && onat_eqb (s_map s) None && is_live (s_runs s 0)
+                    && negb (agrees s)
+                    && has_label (fun l => match l with LRet 0 RetErr => true | _ => false end) ls
+                    && has_label (fun l => match l with LRet 1 RetNotRunning => true | _ => false end) ls
+  | None => false
+  end = true.
+Proof. vm_compute. reflexivity. Qed.
+
+(* both engines: the write fails at a recovery restart: the nested Start fails, the old cleanup writes Degraded,
+   the new run is live (v1: unpublished and without a cleanup goroutine; v2: published, under Degraded) *)
+Definition w_stfail_restart_v1 : list act :=
+  start_v1 0 ++ [AOpen 0] ++ fail_v1 0 CaTransient ++ clean 0 8 ++ [AClean 0 1] ++ clean 0 4 ++ [AOpen 1].
+Lemma stfail_restart_leaks_run_v1 :
+  match final (cfg_v1_io true) w_stfail_restart_v1 with
+  | Some s => quiescent s && status_eqb (s_status s) Degraded && is_live (s_runs s 1) && negb (agrees s)
+  | None => false
+  end = true.
+Proof. vm_compute. reflexivity. Qed.
+
+Definition w_stfail_restart_v2 : list act :=
+  start_v2 0 ++ fail_v1 0 CaTransient ++ clean 0 11 ++ [AClean 0 1] ++ clean 0 4.
+Lemma stfail_restart_leaks_run_v2 :
+  match final (cfg_v2_io true) w_stfail_restart_v2 with
+  | Some s => quiescent s && status_eqb (s_status s) Degraded && is_live (s_runs s 1) && negb (agrees s)
+              && negb (guards_free s)
+  | None => false
+  end = true.
+Proof. vm_compute. reflexivity. Qed.
+
+(* v2, the write fails at the user's Start: Start returns the error but the run is live, published and past
+   startupDone: a Stop ends it in the ordinary way *)
+Definition w_stfail_start_v2 : list act :=
+  [ACall KStart 0] ++ user 8 ++ [AUser 1; AUser 0; ACall KStop 1] ++ user 4 ++ [AEnd 0] ++ clean 0 4.
+Lemma stfail_start_stoppable_v2 :
+  match trace (cfg_v2_io true) init w_stfail_start_v2 with
+  | Some (ls, s) => quiescent s && agrees s && guards_free s && status_eqb (s_status s) UserStopped
+                    && has_label (fun l => match l with LRet 0 RetErr => true | _ => false end) ls
+                    && has_label (fun l => match l with LRet 1 RetNil => true | _ => false end) ls
+  | None => false
+  end = true.
+Proof. vm_compute. reflexivity. Qed.
